@@ -28,6 +28,8 @@ pub fn hex_encode(b: &[u8]) -> String {
 
 /// `#<n>` numeric, `@<name>` named
 pub fn ident(s: &str) -> Identifier {
+    // a trailing `=<hash>` (resolved id, for the model only) is ignored
+    let s = s.split('=').next().unwrap();
     if let Some(n) = s.strip_prefix('#') {
         Identifier::numeric(n.parse().unwrap()).unwrap()
     } else if let Some(n) = s.strip_prefix('@') {
@@ -69,7 +71,7 @@ pub fn partitioning(s: &str) -> Partitioning {
     } else if let Some(p) = s.strip_prefix("pid:") {
         Partitioning::partition_id(p.parse().unwrap())
     } else if let Some(k) = s.strip_prefix("key:") {
-        Partitioning::messages_key(&hex_decode(k)).unwrap()
+        Partitioning::messages_key(&hex_decode(k.split('=').next().unwrap())).unwrap()
     } else {
         panic!("bad partitioning {s}")
     }
